@@ -43,8 +43,9 @@ Theorem C01_parser_climb_refines_loop : forall sch st d cls,
   (forall rhs o c res, Inner rhs o c res -> P_inner sch st d cls rhs o c res).
 Proof. exact climb_sim. Qed.
 
-(* Text level: every text of the surface grammar (Spec/Grammar.v: comparisons of a field with a literal in
-   any literal form, bare boolean fields, not / ! , parentheses, and / xor / or in either spelling, any
+(* Text level: every text of the surface grammar (Spec/Grammar.v: comparisons of a field - possibly indexed
+   with [n] / ["key"] / [*] - with a literal in any literal form, `in {..}` lists of values, ranges and CIDRs,
+   `in $list`, contains, bare boolean fields, not / ! , parentheses, and / xor / or in either spelling, any
    white-space layout) is parsed to the AST the grammar assigns to it - binding strength not > and > xor >
    or - and executing that AST on any well-formed context gives its denotation. *)
 Theorem C01_text_level : forall sch st text e c,
@@ -61,7 +62,7 @@ Qed.
 Example C01_text_level_instance :
   GFilter gex_sch default_settings gex_text (interp (build_or gex_x)) /\
   parse_filter gex_sch default_settings gex_text =
-    LOk (ECombining LOr (LCons (ECombining LAnd (LCons gex_a1 (LCons gex_a2 LNil))) (LCons gex_a3 LNil))) [].
+    LOk (ECombining LOr (LCons (ECombining LAnd (LCons gex_a1 (LCons gex_a2 LNil))) (LCons gex_a3 (LCons gex_a4 LNil)))) [].
 Proof. split; [exact gex_in_grammar|exact gex_parses]. Qed.
 
 (* Non-vacuity: a concrete mixed filter over a concrete context. *)
